@@ -556,9 +556,18 @@ func (p *c18Peer) sendInitialWindow(w int64) bool {
 	p.settingsChanges++
 	p.logf("send SETTINGS INITIAL_WINDOW_SIZE=%d (was %d)", w, p.wCur)
 	p.mu.Unlock()
-	p.writeFrame(func() error { return p.fr.WriteSettings(xh2.Setting{ID: xh2.SettingInitialWindowSize, Val: uint32(w)}) })
+	p.writeFrame(func() error {
+		if p.dupSettings() {
+			// the same identifier twice in one frame: settings are processed in the order they appear, the last value stands (RFC 7540 6.5.3)
+			return p.fr.WriteSettings(xh2.Setting{ID: xh2.SettingInitialWindowSize, Val: 65535}, xh2.Setting{ID: xh2.SettingInitialWindowSize, Val: uint32(w)})
+		}
+		return p.fr.WriteSettings(xh2.Setting{ID: xh2.SettingInitialWindowSize, Val: uint32(w)})
+	})
 	return true
 }
+
+// dupSettings: half of the cases write every setting twice in its SETTINGS frame, a decoy value first
+func (p *c18Peer) dupSettings() bool { return (p.cs.W0+int64(len(p.cs.Sizes)))%2 == 0 }
 
 // drained: nothing more may legally arrive before the peer releases more window.
 func (p *c18Peer) drainedLocked() bool {
@@ -927,6 +936,10 @@ func (p *c18Peer) handshake() bool {
 	p.logf("send SETTINGS INITIAL_WINDOW_SIZE=%d MAX_FRAME_SIZE=%d", p.cs.W0, p.cs.MaxFrame)
 	p.mu.Unlock()
 	err := p.writeFrame(func() error {
+		if p.dupSettings() {
+			return p.fr.WriteSettings(xh2.Setting{ID: xh2.SettingInitialWindowSize, Val: 1 << 20}, xh2.Setting{ID: xh2.SettingMaxFrameSize, Val: 1 << 20},
+				xh2.Setting{ID: xh2.SettingInitialWindowSize, Val: uint32(p.cs.W0)}, xh2.Setting{ID: xh2.SettingMaxFrameSize, Val: p.cs.MaxFrame})
+		}
 		return p.fr.WriteSettings(xh2.Setting{ID: xh2.SettingInitialWindowSize, Val: uint32(p.cs.W0)}, xh2.Setting{ID: xh2.SettingMaxFrameSize, Val: p.cs.MaxFrame})
 	})
 	if err != nil {
